@@ -64,6 +64,7 @@ XStep(st, e, t) ==
                after == IF e.fed = <<>> THEN st0.m ELSE OnHeartbeat(e.fed[Len(e.fed)])
                new == [st0 EXCEPT !.m = after]
            IN IF e.early THEN Bad(st, "the wait failed with NmtError before its time-out had run out")
+              ELSE IF e.slow THEN Bad(st, "wait_for_heartbeat did not return on the message: it slept on for more than half its time-out")
               ELSE IF e.kind = "hb"
                 THEN IF e.fed = <<>>
                        THEN IF e.result # "NmtError" THEN Bad(st, "wait_for_heartbeat without heartbeat did not fail with NmtError")
